@@ -224,9 +224,14 @@ def shrink(prop, cfg, features, extra_env, req, still_fails):
     if not shr:
         return req
     cur = req
+    # shrinking spawns two processes per candidate: bound it by wall-clock time so a loaded machine
+    # cannot turn a found violation into a check that never reports it
+    deadline = time.time() + float(os.environ.get("VERIF_SHRINK_SECONDS", "60"))
     for _ in range(200):
         progressed = False
         for cand in shr(cur):
+            if time.time() > deadline:
+                return cur
             if cand != cur and still_fails(cand):
                 cur = cand
                 progressed = True
